@@ -293,6 +293,13 @@ class NativeState:
             cons += [z3.UGE(self.FC, 2), z3.ULE(self.FC, 1 << 22), z3.ULE(self.segs[-1][1], self.FC)]
             # mem_decide_storage makes flat_count = the largest segment end below the limit
             cons.append(self.FC == self.segs[-1][1])
+        elif mode == 'hybrid':
+            # the flat window ends inside or at the end of some segment that starts below it; at least one word lies above it
+            cons += [z3.UGE(self.FC, 2), z3.ULE(self.FC, 1 << 22), z3.UGT(self.segs[-1][1], self.FC),
+                     z3.Or(*[z3.And(z3.ULT(s_, self.FC), z3.ULE(self.FC, e_)) for s_, e_ in self.segs])]
+        self.JUNK = z3.Array('JUNK', z3.BitVecSort(64), z3.BitVecSort(64))     # page-backed words outside every segment (device writes)
+        self.pages: List[Tuple[Any, Obj, Obj]] = []      # (page index term, Page struct, words object)
+        self.prog_stores: List[Tuple[Any, Any]] = []     # (word address, value) of every program-memory store, in order
         for c in cons:
             E.base.append(c)
             E.solver.add(c)
@@ -310,8 +317,8 @@ class NativeState:
                 if E.branch(self.valid(idx)):
                     return simp(z3.ZeroExt(64 - w, z3.Select(self.MA, idx)) if w < 64 else z3.Select(self.MA, idx))
                 return garbage
-            self.flat.meta['wa_of'] = lambda idx: idx
-            self.flat.meta['log'] = M.wa_log.append
+            self.flat.meta['canon_idx'] = M.canon          # flat cell index = word address
+            self.flat.meta['on_write'] = lambda idx, v: self.prog_stores.append((bv(idx, 64), v))
             self.flat.meta['fork_reads'] = True
             self.flat.meta['fork_base'] = fork_base
         self.segobj = M.alloc(16 * 8, 'heap', 'segments')
@@ -346,6 +353,54 @@ class NativeState:
     def valid(self, idx: Any) -> Any:
         return z3.Or(*[z3.And(z3.ULE(s, idx), z3.ULT(idx, e)) for s, e in self.segs])
 
+    # ------------------------------------------------------------------ pages (contract model of mem_get_page)
+    def page_for(self, pi: Any, world: 'World') -> Any:
+        """the Page* for page index pi: an already materialised page (decided by forking on index equality) or a new one whose
+        words represent (valid ? word : junk) and whose fast valid range is computed by the REAL page_compute_validity IR"""
+        M, E, w = self.M, self.M.E, self.w
+        for pj, pobj, _ in self.pages:
+            if (is_c(pi) and is_c(pj) and pi == pj) or (not (is_c(pi) and is_c(pj)) and E.branch(bv(pi, 64) == bv(pj, 64))):
+                return M.ptr(pobj)
+        if world.alloc_fail and E.branch(world.fresh_bool('allocfail')):
+            world.err = 'nomem'
+            world.events.append('alloc-failed')
+            return 0
+        pi_t = bv(pi, 64)
+
+        def wa_of(off: Any) -> Any:
+            return M.canon(simp((pi_t << PAGE_BITS) | bv(off, 64)))
+
+        def fork_base(off: Any) -> Any:
+            wa = wa_of(off)
+            if E.branch(self.valid(bv(wa, 64))):
+                return simp(z3.ZeroExt(64 - w, z3.Select(self.MA, bv(wa, 64))) if w < 64 else z3.Select(self.MA, bv(wa, 64)))
+            return simp(z3.Select(self.JUNK, bv(wa, 64)))
+        words = M.alloc(PAGE_WORDS * 8, 'heap', f'page_words{len(self.pages)}')
+        words.meta.update(fork_reads=True, fork_base=fork_base, wa_of=wa_of,
+                          on_write=lambda off, v: self.prog_stores.append((bv(wa_of(off), 64), v)))
+        pobj = M.alloc(24, 'heap', f'page{len(self.pages)}')
+        pobj.write(0, M.ptr(words))
+        self.pages.append((pi, pobj, words))
+        M.call('@page_compute_validity', [M.ptr(self.self_obj), pi, M.ptr(pobj)])
+        return M.ptr(pobj)
+
+    def install_get_page(self, world: 'World') -> None:
+        M = self.M
+
+        def mem_get_page(m: Any, pi: Any) -> Any:
+            key = pi + 1 if is_c(pi) else simp(pi + 1)
+            slot = pi & 15 if is_c(pi) else simp(pi & 15)
+            cached_key = M.load(M.gep(ir.I64, M.ptr(self.self_obj, self.offs[8]), [(ir.I64, slot)]), ir.I64)
+            hit = (cached_key == key) if is_c(cached_key) and is_c(key) else M.E.branch(bv(cached_key, 64) == bv(key, 64))
+            if hit:
+                return M.load(M.gep(ir.I64, M.ptr(self.self_obj, self.offs[9]), [(ir.I64, slot)]), ir.I64)
+            p = self.page_for(pi, world)
+            if is_c(p) and p == 0:
+                return 0
+            M.call('@page_cache_fill', [m, slot, key, p])
+            return p
+        M.stubs['@mem_get_page'] = mem_get_page
+
 
 class NativeSpecMem:
     """pyspec's memory interface over the abstraction (valid, MA) of a NativeState"""
@@ -362,21 +417,7 @@ class NativeSpecMem:
         (same value, the C code's term shape: later conditions then coincide syntactically with what is already on the path)"""
         k = lift(wa)[0]
         t = simp(z3.Extract(63, 0, k))
-        if is_c(t):
-            return t
-        hit = self._norm.get(t.get_id())
-        if hit is not None:
-            return hit[1]
-        E = engine()
-        res = t
-        for c in self.ns.M.wa_log:
-            if is_c(c):
-                continue
-            if c.eq(t) or E._check(t != c) == 'unsat':
-                res = c
-                break
-        self._norm[t.get_id()] = (t, res)
-        return res
+        return self.ns.M.canon(t)
 
     def valid(self, wa: Any) -> Any:
         k = lift(wa)[0]
@@ -386,7 +427,15 @@ class NativeSpecMem:
         return mkb(z3.And(hi, self.ns.valid(bv(i, 64))))
 
     def load(self, wa: Any) -> Any:
-        v = z3.Select(self.arr, bv(self._idx(wa), 64))
+        i = bv(self._idx(wa), 64)
+        E = engine()
+        v = None
+        for si, sv in reversed(self.stores):       # aliasing with earlier stores decided by forking (as on the C side)
+            if E.branch(si == i):
+                v = sv
+                break
+        if v is None:
+            v = z3.Select(self.ns.MA, i)
         return mk(z3.ZeroExt(self.W - self.ns.w, v), 0, (1 << self.ns.w) - 1)
 
     def store(self, wa: Any, v: Any) -> None:
